@@ -1,8 +1,164 @@
-(* C08 — property theorems only.  Each is closed by [exact]; see C08/Proofs.v. *)
-From Coq Require Import List ZArith Arith.
-From VV Require Import Lib.Base Lib.B64 C08.Model C08.Proofs.
+(* C08 — property theorems only.  Each is closed by [exact]; see C08/Proofs*.v. *)
+From Coq Require Import List ZArith Arith Reals.
+From Flocq Require Import Core IEEE754.BinarySingleNaN.
+From VV Require Import Lib.Base Lib.B64 C08.Model C08.ProofsFloat C08.ProofsReal C08.Proofs.
 Import ListNotations.
 
-Theorem C08_copy_same : forall d, run_op d OCopy = Ok d.
-Proof. exact copy_same. Qed.
-Print Assumptions C08_copy_same.
+(* ---- value: the plain array operation, cell by cell ---- *)
+Theorem C08_value_is_array_op :
+  forall o d r x k,
+  wf d -> wf_rhs r -> binop o d r = Ok x -> (k < prod (shape d))%nat ->
+  nth k (value x) fzero
+  = cell_val o (nth k (value d) fzero)
+               (match r with
+                | RNum c => c
+                | RArr _ a => nth k a fzero
+                | RDs d2 => nth k (value d2) fzero
+                end).
+Proof. exact binop_value_cells. Qed.
+Print Assumptions C08_value_is_array_op.
+
+Theorem C08_cell_value_is_ieee_op :
+  forall o v1 v2,
+  cell_val o v1 v2 = match o with Add => fadd v1 v2 | Sub => fsub v1 v2
+                                | Mul => fmul v1 v2 | Div => fdiv v1 v2 end.
+Proof. intros []; reflexivity. Qed.
+Print Assumptions C08_cell_value_is_ieee_op.
+
+(* ---- error between datasets: the expression tree [err_dd] on the four cells ---- *)
+Theorem C08_error_cells_between_datasets :
+  forall o d d2 x k,
+  wf d -> wf d2 -> binop o d (RDs d2) = Ok x -> (k < prod (shape d))%nat ->
+  nth k (error x) fzero
+  = eval B64A (err_dd o) (mkenv (nth k (value d) fzero) (nth k (error d) fzero)
+                                (nth k (value d2) fzero) (nth k (error d2) fzero)).
+Proof. exact binop_error_cells_ds. Qed.
+Print Assumptions C08_error_cells_between_datasets.
+
+(* ---- over R, the same expression trees are the first-order propagation of
+        uncorrelated errors: sqrt((df/dv1 e1)^2 + (df/dv2 e2)^2) ---- *)
+Theorem C08_error_is_first_order_propagation :
+  forall o v1 e1 v2 e2,
+  (o = Div -> v2 <> 0%R) ->
+  derivable_pt_lim (fun x => valR o x v2) v1 (d1 o v1 v2) /\
+  derivable_pt_lim (fun y => valR o v1 y) v2 (d2 o v1 v2) /\
+  errR_dd o v1 e1 v2 e2 = sqrt (Rsqr (d1 o v1 v2 * e1) + Rsqr (d2 o v1 v2 * e2)).
+Proof.
+  exact (fun o v1 e1 v2 e2 H =>
+           conj (valR_partial_left o v1 v2 H)
+                (conj (valR_partial_right o v1 v2 H) (errR_dd_first_order o v1 e1 v2 e2 H))).
+Qed.
+Print Assumptions C08_error_is_first_order_propagation.
+
+Theorem C08_sum_difference_quadratic_sum_of_absolute_errors :
+  forall o v1 e1 v2 e2,
+  o = Add \/ o = Sub -> errR_dd o v1 e1 v2 e2 = sqrt (Rsqr e1 + Rsqr e2).
+Proof. exact errR_add_sub. Qed.
+Print Assumptions C08_sum_difference_quadratic_sum_of_absolute_errors.
+
+Theorem C08_product_quotient_quadratic_sum_of_relative_errors :
+  forall o v1 e1 v2 e2,
+  o = Mul \/ o = Div -> v1 <> 0%R -> v2 <> 0%R ->
+  (errR_dd o v1 e1 v2 e2 / Rabs (valR o v1 v2))%R = sqrt (Rsqr (e1 / v1) + Rsqr (e2 / v2)).
+Proof. exact errR_mul_div_relative. Qed.
+Print Assumptions C08_product_quotient_quadratic_sum_of_relative_errors.
+
+(* a constant: factor -> error scaled by its magnitude, shift -> error unchanged;
+   and this is the dataset formula for an operand without error *)
+Theorem C08_constant_error_formula_R :
+  forall o e1 c,
+  errR_dc o e1 c = match o with Add | Sub => e1 | Mul => (e1 * Rabs c)%R | Div => (e1 / Rabs c)%R end
+  /\ forall v1, (0 <= e1)%R -> (o = Div -> c <> 0%R) -> errR_dd o v1 e1 c 0 = errR_dc o e1 c.
+Proof. exact (fun o e1 c => conj (errR_const o e1 c) (fun v1 => errR_dd_const o v1 e1 c)). Qed.
+Print Assumptions C08_constant_error_formula_R.
+
+(* ---- binary64: a constant factor scales the error by its magnitude ---- *)
+Theorem C08_const_factor_scales_by_abs :
+  forall d c x,
+  (binop Mul d (RNum c) = Ok x -> error x = map (fun e => fmul e (fabs c)) (error d)) /\
+  (binop Div d (RNum c) = Ok x -> error x = map (fun e => fdiv e (fabs c)) (error d)).
+Proof. exact (fun d c x => conj (binop_error_const_mul d c x) (binop_error_const_div d c x)). Qed.
+Print Assumptions C08_const_factor_scales_by_abs.
+
+Theorem C08_const_factor_sign_is_irrelevant_for_the_error :
+  forall o d c,
+  match binop o d (RNum c), binop o d (RNum (fneg c)) with
+  | Ok x, Ok y => error x = error y
+  | _, _ => False
+  end.
+Proof. exact binop_const_sign_irrelevant. Qed.
+Print Assumptions C08_const_factor_sign_is_irrelevant_for_the_error.
+
+Theorem C08_const_factor_error_is_rounded_product :
+  forall e c : b64,
+  Rlt_bool (Rabs (round radix2 (SpecFloat.fexp 53 1024) (round_mode mode_NE)
+                        (B2R e * Rabs (B2R c)))) (bpow radix2 1024) = true ->
+  B2R (cell_err_dc Mul e c)
+  = round radix2 (SpecFloat.fexp 53 1024) (round_mode mode_NE) (B2R e * Rabs (B2R c)).
+Proof. exact cell_err_mul_const_R. Qed.
+Print Assumptions C08_const_factor_error_is_rounded_product.
+
+Theorem C08_const_divisor_error_is_rounded_quotient :
+  forall e c : b64,
+  B2R c <> 0%R ->
+  Rlt_bool (Rabs (round radix2 (SpecFloat.fexp 53 1024) (round_mode mode_NE)
+                        (B2R e / Rabs (B2R c)))) (bpow radix2 1024) = true ->
+  B2R (cell_err_dc Div e c)
+  = round radix2 (SpecFloat.fexp 53 1024) (round_mode mode_NE) (B2R e / Rabs (B2R c)).
+Proof. exact cell_err_div_const_R. Qed.
+Print Assumptions C08_const_divisor_error_is_rounded_quotient.
+
+Theorem C08_shift_leaves_error :
+  forall o d c x, o = Add \/ o = Sub -> binop o d (RNum c) = Ok x -> error x = error d.
+Proof. exact binop_error_const_shift. Qed.
+Print Assumptions C08_shift_leaves_error.
+
+(* ---- errors are never negative ---- *)
+(* between datasets: sign bit clear (or NaN) whatever the operands are *)
+Theorem C08_error_nonneg_between_datasets :
+  forall o d d2 x, binop o d (RDs d2) = Ok x -> Forall (fun e => Bsign e = false) (error x).
+Proof. exact binop_error_sign_ds. Qed.
+Print Assumptions C08_error_nonneg_between_datasets.
+
+(* along every finite chain of operations, copies, masks and squeezes, with any
+   right operands: no error below zero if the first dataset has none *)
+Theorem C08_error_not_negative_along_chains :
+  forall ops d x,
+  Forall not_neg (error d) -> run_chain d ops = Ok x -> Forall not_neg (error x).
+Proof. exact chain_error_not_neg. Qed.
+Print Assumptions C08_error_not_negative_along_chains.
+
+(* ---- well-formedness along every finite chain ---- *)
+Theorem C08_chain_well_formed :
+  forall ops d x, wf d -> Forall wf_op ops -> run_chain d ops = Ok x -> wf x.
+Proof. exact chain_wf. Qed.
+Print Assumptions C08_chain_well_formed.
+
+(* ---- the left operand's shape, bins and name are kept ---- *)
+Theorem C08_left_bins_kept :
+  forall o d r x, binop o d r = Ok x -> shape x = shape d /\ bins x = bins d /\ name x = name d.
+Proof. exact binop_keeps. Qed.
+Print Assumptions C08_left_bins_kept.
+
+Theorem C08_chain_keeps_left_bins :
+  forall ops d x,
+  run_chain d ops = Ok x ->
+  name x = name d /\ sublist (bins x) (bins d) /\
+  (forallb (fun o => negb (is_squeeze o)) ops = true -> shape x = shape d /\ bins x = bins d).
+Proof. exact chain_keeps. Qed.
+Print Assumptions C08_chain_keeps_left_bins.
+
+Theorem C08_mask_keeps_everything_else :
+  forall d m x,
+  run_op d (OMask m) = Ok x ->
+  shape x = shape d /\ value x = value d /\ error x = error d /\ bins x = bins d
+  /\ name x = name d /\ what x = what d.
+Proof. exact mask_keeps. Qed.
+Print Assumptions C08_mask_keeps_everything_else.
+
+(* ---- copy: same content, every component fresh (model provenance, validated
+        against numpy.shares_memory on every run) ---- *)
+Theorem C08_copy_fresh :
+  forall d, run_op d OCopy = Ok d /\ prov_of OCopy = mk_prov Fresh Fresh Fresh.
+Proof. exact copy_spec. Qed.
+Print Assumptions C08_copy_fresh.
